@@ -64,6 +64,10 @@ def run_bare(case, rng):
     from vmon.simkit import omit
     dec = csr.Decoder(**omit(rng, "csr.Decoder", addr_width=aw, data_width=dw, alignment=case["al"]))
     subs, topo, rejected = [], [], []
+    accepted = []
+    if rng.random() < 0.1:
+        # the decoder's own memory map is replaced (through the public setter) by an equivalent one, before any add()
+        dec.bus.memory_map = MemoryMap(addr_width=aw, data_width=dw, alignment=case["al"])
     for i in range(case["nsubs"]):
         k = rng.randint(1, max(1, (aw - 5) if case["nsubs"] > 8 else (aw - 1)))
         if case["nsubs"] > 60:
@@ -82,11 +86,12 @@ def run_bare(case, rng):
             kw["addr"] = rng.randrange(1 << aw) // (1 << k) * (1 << k)
         name = None if rng.random() < 0.5 else f"w{i}"
         try:
-            dec.add(sub, name=name, **kw)
+            granted = dec.add(sub, name=name, **kw)
         except ValueError:
             rejected.append(sub)      # not part of the decoder: whatever it presents must not be seen upstream
             continue
         subs.append(sub)
+        accepted.append((id(sub.memory_map), tuple(granted)))
         if rng.random() < 0.1:
             try:
                 dec.add(sub, name=f"again{i}")   # the same subordinate again: refused, and nothing may change
@@ -114,6 +119,12 @@ def run_bare(case, rng):
         wins.append((sub, s, s + (1 << sub.addr_width), e))
         topo.append((s, e, sub.addr_width))
     mon = Mon()
+    reported = {(id(w_), (s_, e_, r_)) for w_, _n, (s_, e_, r_) in dec.bus.memory_map.windows()}
+    mon.run(lambda: mon.ok("add_result_reported", all(a in reported for a in accepted),
+                           f"ranges returned by accepted add() calls {[a[1] for a in accepted if a not in reported][:3]} are not "
+                           f"windows of the decoder's memory map"))
+    if mon.violations:
+        return mon.result(summary={"aw": aw, "dw": dw, "stim": case["stim_seed"]})
     bus = dec.bus
     edges = sorted({a for _s, s, t, e in wins for a in (s, s - 1, t - 1, t, e - 1, e) if 0 <= a < (1 << aw)})
     pending = [0] * len(wins)          # data each conforming subordinate must present next cycle
